@@ -195,6 +195,13 @@ func Yield()                         {}
 func PreemptBound(k int) {}
 func WaitIdle()                      {}
 
+// LateGoroutine(n): under symgo, from now on one goroutine started later on the path may be
+// chosen (a symbolic decision at each `go`) to be late: whenever the scheduler would run it
+// while another goroutine can run, it is either released for good or passed over, at most n
+// times (n = 0 switches the mode off). Every schedule explored is a legal Go schedule (Go
+// promises no fairness over finite delays). Natively a no-op.
+func LateGoroutine(n int) {}
+
 // Clock returns arbitrary non-decreasing instants (seconds).
 func Clock() int64 {
 	v := Int64("clock")
